@@ -190,8 +190,8 @@ def configurations(ctx: Ctx) -> list[dict]:
         allc = [(s, p, m) for s in ("params", "bodies", "links", "multi") for p in subsets for m in modes
                 if "stateful" not in p or s in ("links", "multi")]
         rng.shuffle(allc)
-        quick3 = {c[:3] for c in QUICK}
-        base = list(QUICK) + [c for c in allc if c not in quick3]
+        quick3 = [tuple(c[:3]) for c in QUICK]
+        base = list(QUICK) + [c for c in allc if tuple(c) not in quick3]
         base = (base + [c for c in allc])[:150]            # 96 distinct (schema, phases, modes) + repeats with other seeds / extras
     for i, c in enumerate(base):
         s, p, m = c[:3]
